@@ -578,6 +578,17 @@ func (fc *fileCtx) callExpr(ce *ast.CallExpr) {
 	if !ok {
 		return
 	}
+	if sel.Sel.Name == "WaitForCacheSync" {
+		// cache.WaitForCacheSync(stop, fns...) polls on the real clock -> simhook.WaitForCacheSync (simulated clock)
+		if fn, ok := fc.pkg.TypesInfo.Uses[sel.Sel].(*types.Func); ok && fn.Pkg() != nil && fn.Pkg().Path() == "k8s.io/client-go/tools/cache" {
+			rep.CallSubst++
+			fc.needHook = true
+			// keep the import used: a blank reference is appended to the file
+			fc.add(len(fc.src), len(fc.src), "\nvar _ = "+fc.text(sel.X)+".WaitForCacheSync\n")
+			fc.add(fc.off(sel.Pos()), fc.off(sel.End()), "simhook.WaitForCacheSync")
+		}
+		return
+	}
 	if sel.Sel.Name != "UnsortedList" && sel.Sel.Name != "PopAny" {
 		return
 	}
